@@ -27,6 +27,8 @@ props! {
     "C14" => c14,
     "C15" => c15,
     "C16" => c16,
+    "C17" => c17,
+    "C18" => c18,
     "C19" => c19,
     "C20" => c20,
 }
@@ -44,6 +46,7 @@ pub fn replay(path: &str) -> i32 {
     match id {
         "C20" => c20::replay(&v["replay"]),
         "C02" => c02::replay(&v["replay"]),
+        "C18" => c18::replay(&v["replay"]),
         _ => {
             println!("{}", serde_json::to_string_pretty(&v).unwrap());
             crate::elog!("no executable replay for {}; the file lists the literal inputs", id);
@@ -52,6 +55,9 @@ pub fn replay(path: &str) -> i32 {
     }
 }
 
-pub fn child(_args: &[String]) -> i32 {
-    2
+pub fn child(args: &[String]) -> i32 {
+    match args.first().map(|s| s.as_str()) {
+        Some("c18") => c18::child(&args[1..]),
+        _ => 2,
+    }
 }
